@@ -14,7 +14,7 @@ RULE = ("lists of length 0-12 over the C01 pair classes in random accepted spell
         "Non-trivial = list with >= 2 entries of which >= 1 needs fixing; distinct = distinct list.")
 ASSUMPTIONS = ["single-pair API is the reference for the colour (differential); wcag/csscolor oracles for the status label"]
 MUST_OBSERVE = {"any": ["lists_judged", "entries_vs_single", "status_judged", "invalid_entries_judged", "permutations_judged"]}
-SIZES = {"quick": 640, "thorough": 12800}
+SIZES = {"quick": 480, "thorough": 9600}
 INVALID = ["notacolor", "#12", "#ggg", "rgb(1,2)", "", "#12345", "hsl(", (1, 2), (1, 2, 3, 4, 5), [None, 1, 2], (), "var(--x)"]
 # only unambiguously unparseable values: out-of-range components (which CSS would clamp) are deliberately absent
 
@@ -79,6 +79,21 @@ def work(shard, rec):
                 entries.append(twin if rnd.random() < 0.7 else list(twin))
                 meta.append((valid, tuple(b), tl))
                 rec.count("twin_entries_other_size")
+        if li % 5 == 0:
+            # entries whose arguments compare equal in Python but denote different colours (ints are channels, floats in [0,1]
+            # fractions, bools ints), next to each other in one list
+            bits = [rnd.choice([0, 1]) for _ in range(3)]
+            if sum(bits) in (0, 3):
+                bits[rnd.randrange(3)] ^= 1
+            abg = rnd.choice(["#000000", "#ffffff", (40, 40, 40)])
+            forms = [tuple(int(x) for x in bits), tuple(float(x) for x in bits), tuple(bool(x) for x in bits)]
+            rnd.shuffle(forms)
+            pos = rnd.randrange(len(entries) + 1)
+            for f_ in forms:
+                den = tuple(255 * int(x) for x in f_) if isinstance(f_[0], float) else tuple(int(x) for x in f_)
+                entries.insert(pos, (f_, abg))
+                meta.insert(pos, (True, None, False))
+            rec.count("alias_entries", 3)
         mode, vr = settings[(li + shard["idx"]) % 6]
         case = {"entries": [repr(e) for e in entries], "mode": mode, "vr": vr, "seed": shard["seed"], "idx": shard["idx"], "li": li}
         rec.ev()
@@ -138,6 +153,28 @@ def work(shard, rec):
             continue
         if len(entries) >= 2 and needs_fix:
             rec.nontrivial(repr(entries) + repr((mode, vr)))
+        # the same entries handed over as a one-shot iterable (zip / generator), with and without a report: one result per entry
+        if li % 8 == 1 and entries:
+            import contextlib, io, os, tempfile
+            for how in ("generator", "zip"):
+                for save in (False, True):
+                    it = (e for e in entries) if how == "generator" else zip([e[0] for e in entries], [e[1] for e in entries], [(e[2] if len(e) == 3 else False) for e in entries])
+                    want = res if how == "generator" else lib.make_readable_bulk([(e[0], e[1], (e[2] if len(e) == 3 else False)) for e in entries], mode=mode, very_readable=vr)
+                    try:
+                        cwd = os.getcwd()
+                        os.chdir(os.environ.get("CMV_SCRATCH", tempfile.gettempdir()))
+                        try:
+                            with contextlib.redirect_stdout(io.StringIO()):
+                                got = lib.make_readable_bulk(it, mode=mode, very_readable=vr, save_report=save)
+                        finally:
+                            os.chdir(cwd)
+                    except TypeError:
+                        rec.count("one_shot_iterable_rejected")   # a library that insists on a list is within the statement
+                        continue
+                    rec.count("one_shot_iterables_judged")
+                    if got != want:
+                        rec.violation(f"make_readable_bulk(<{how} of {len(entries)} entries>, save_report={save}) returned {len(got)} results "
+                                      f"{'(none)' if not got else ''} that differ from the list call's {len(want)}", dict(case, how=how, save=save))
         # permutation
         if len(entries) >= 2:
             perm = list(range(len(entries)))
